@@ -65,7 +65,9 @@ def strategy(tier):
       seed=st.integers(0, 10**6),
       sigma=st.sampled_from([0.0, 0.3, 1.0]),
       vel=st.sampled_from([0.3, 1.0, 3.0]),
-      ctrl=st.sampled_from([0.3, 1.0]),
+      ctrl=st.sampled_from([0.3, 1.0, 4.0]),
+      # CLAMPCTRL disabled: the velocity coefficient of an affine gain is then multiplied by the raw control (MuJoCo's qDeriv with the same flag is the reference)
+      noclamp=st.sampled_from([False, False, False, True]),
     )
   )
 
@@ -75,6 +77,8 @@ def build(case):
   if cfg["nroot"] == 0 and not cfg["chains"]:
     cfg["nroot"] = 1
   cfg["option"] = dict(integrator=case["integrator"], jacobian=case["jacobian"], timestep=case["timestep"])
+  if case.get("noclamp"):
+    cfg["option"]["flags"] = dict(clampctrl="disable")
   spec = gen.make_spec(cfg)
   for t in spec["tendons"]:
     t.pop("armature", None)
